@@ -19,7 +19,7 @@ import (
 // C10 Values are immutable: operations never alter operands or program constants.
 
 const c10Rule = "(a) sessions over a pool of 3-8 array/string variables: literals (constant and computed elements, inside loops and recursive functions), concatenation, slicing (slices of slices, empty and full ranges), nesting, calls returning slices/concatenations, iteration, arrays captured by closures and generators; after every statement all variables are probed and must render as before (except the assigned one) and as in the reference; " +
-	"(b) value API: Arith(ADD) / Index / array building on a pool of value.Type against renderings taken at creation; " +
+	"(b) value API: Arith(ADD) / Index / array building on a pool of array and string value.Type (literal lengths aimed at 4/8/16/32) against renderings taken at creation; " +
 	"non-trivial = (a) the session holds a concatenation whose left operand is a proper slice of a live value, or a literal evaluated >= 2 times, (b) a concatenation onto a slice; distinct by session / operation text"
 
 const c10Prelude = "sl = (a, i, j) -> a[i:j]\n----\n" +
@@ -84,9 +84,9 @@ func c10Session(t *rapid.T) (stmts []string, probes []string, nontrivial bool) {
 		v, ok := pick(str)
 		if !ok || rapid.IntRange(0, 5).Draw(t, "lit") == 0 {
 			if str {
-				return rapid.SampledFrom([]string{`"ab"`, `""`, `"xyz"`, `"q"`}).Draw(t, "slit")
+				return rapid.SampledFrom([]string{`"ab"`, `""`, `"xyz"`, `"q"`, `"item-nr"`, `"0123456789abcde"`, `"a-seventeen-bytes"`, `"the quick brown fox jumps over it"`}).Draw(t, "slit")
 			}
-			return rapid.SampledFrom([]string{"[1, 2, 3]", "[]", "[4]", "[[5], 6]", "lit()", "[1, nothing(), 3]", "[nothing()]", "[7, 8, nothing()]"}).Draw(t, "alit")
+			return rapid.SampledFrom([]string{"[1, 2, 3]", "[]", "[4]", "[[5], 6]", "lit()", "[1, 2, 3, 4, 5, 6, 7]", "[0, 1, 2, 3, 4, 5, 6, 7, 8, 9, 10, 11, 12, 13, 14, 15, 16]", "[1, nothing(), 3]", "[nothing()]", "[7, 8, nothing()]"}).Draw(t, "alit")
 		}
 		n := lenOf(v.name)
 		switch rapid.IntRange(0, 5).Draw(t, "form") {
@@ -303,6 +303,7 @@ type valOp struct {
 	I       int    `json:"i,omitempty"`
 	J       int    `json:"j,omitempty"`
 	Literal []int  `json:"lit,omitempty"`
+	Str     string `json:"str,omitempty"`
 }
 
 func runValOps(ops []valOp) (why string, sliceConcat bool) {
@@ -326,6 +327,8 @@ func runValOps(ops []valOp) (why string, sliceConcat bool) {
 					a = append(a, value.NewInt(e))
 				}
 				add(value.NewArray(a))
+			case "slit":
+				add(value.NewString(op.Str))
 			case "add":
 				if len(pool) == 0 {
 					return
@@ -341,6 +344,9 @@ func runValOps(ops []valOp) (why string, sliceConcat bool) {
 				a := pool[op.A%len(pool)]
 				arr, _ := a.ToArray()
 				n := len(arr)
+				if str, ok := a.ToString(); ok {
+					n = len(str)
+				}
 				i := op.I % (n + 1)
 				j := i + op.J%(n-i+1)
 				if v, err := a.Index(value.NewInt(i), value.NewInt(j)); err == nil {
@@ -374,11 +380,17 @@ func c10Prop(rec *ev.Recorder) func(t *rapid.T) {
 			n := rapid.IntRange(3, 40).Draw(t, "n")
 			ops := []valOp{{Op: "lit", Literal: []int{1, 2, 3, 4}}}
 			for i := 0; i < n; i++ {
-				op := valOp{Op: rapid.SampledFrom([]string{"lit", "add", "add", "slice", "slice", "wrap"}).Draw(t, "op"),
+				op := valOp{Op: rapid.SampledFrom([]string{"lit", "slit", "add", "add", "add", "slice", "slice", "wrap"}).Draw(t, "op"),
 					A: rapid.IntRange(0, 50).Draw(t, "a"), B: rapid.IntRange(0, 50).Draw(t, "b"),
 					I: rapid.IntRange(0, 9).Draw(t, "i"), J: rapid.IntRange(0, 9).Draw(t, "j")}
 				if op.Op == "lit" {
-					op.Literal = rapid.SliceOfN(rapid.IntRange(0, 9), 0, 5).Draw(t, "lit")
+					// lengths aimed at the capacity steps of append-style storage (4, 8, 16, 32)
+					ln := rapid.SampledFrom([]int{0, 1, 2, 3, 4, 5, 7, 8, 9, 15, 16, 17, 31, 33}).Draw(t, "len")
+					op.Literal = rapid.SliceOfN(rapid.IntRange(0, 9), ln, ln).Draw(t, "lit")
+				}
+				if op.Op == "slit" {
+					ln := rapid.SampledFrom([]int{0, 1, 2, 3, 4, 5, 7, 8, 9, 15, 16, 17, 31, 33}).Draw(t, "len")
+					op.Str = rapid.StringOfN(rapid.RuneFrom([]rune("abcxyz01-")), ln, ln, -1).Draw(t, "str")
 				}
 				ops = append(ops, op)
 			}
